@@ -5,9 +5,13 @@ import json, os, re, subprocess, sys, time, shutil, hashlib, glob
 VERIF = os.path.dirname(os.path.dirname(os.path.abspath(__file__)))
 REPO = os.environ.get("VERIF_REPO", "/repo")
 SPEC = os.path.join(VERIF, "spec")
-GEN = os.path.join(SPEC, "gen")
-BUILD = os.path.join(VERIF, "build")
-OUT = os.path.join(VERIF, "out")
+# VERIF_WORK=<dir>: keep every generated file (TLA+ modules, builds, run output, evidence) of this run under <dir> instead of /verif,
+# so that a second run (mutation experiment on a scratch copy selected with VERIF_REPO, background sweep) never disturbs the first
+WORK = os.environ.get("VERIF_WORK")
+GEN = os.path.join(WORK, "gen") if WORK else os.path.join(SPEC, "gen")
+BUILD = os.path.join(WORK or VERIF, "build")
+OUT = os.path.join(WORK or VERIF, "out")
+EVID = os.path.join(WORK or VERIF, "evidence")
 HARNESS = os.path.join(VERIF, "harness")
 TLA_JAR = "/opt/veriftools/tla/tla2tools.jar"
 NCPU = os.cpu_count() or 4
@@ -265,10 +269,10 @@ def write_ndjson(path, events):
 
 # ------------------------------------------------------------------ evidence
 def write_evidence(pid, tier, seed, level, coverage, assumptions, wall, violations):
-    os.makedirs(os.path.join(VERIF, "evidence"), exist_ok=True)
+    os.makedirs(EVID, exist_ok=True)
     ev = {"property_id": pid, "tier": tier, "seed": int(seed), "level": level, "coverage": coverage,
           "assumptions": assumptions, "wall_s": round(wall, 2), "violations": int(violations)}
-    with open(os.path.join(VERIF, "evidence", pid + ".json"), "w") as f:
+    with open(os.path.join(EVID, pid + ".json"), "w") as f:
         json.dump(ev, f, indent=1)
     return ev
 
